@@ -94,7 +94,7 @@ class Result:
         return self.z3 == 'sat' or self.cvc5 == 'sat'
 
 
-def discharge(items, jobs=None, both=False, z3_timeout=None):
+def discharge(items, jobs=None, both=False, z3_timeout=None, use_cvc5=True):
     """items: [(label, smt2)] -> [Result]; runs in a process pool."""
     jobs = jobs or min(16, os.cpu_count() or 4)
     z3_timeout = z3_timeout or Z3_TIMEOUT_MS
@@ -107,7 +107,7 @@ def discharge(items, jobs=None, both=False, z3_timeout=None):
             r = results[idx]
             r.z3, r.time, r.model, r.reason = verdict, t, model, reason
         todo = [(i, items[i][1], CVC5_TIMEOUT_MS) for i, r in enumerate(results)
-                if both or r.z3 not in ('unsat', 'sat')]
+                if both or r.z3 not in ('unsat', 'sat')] if use_cvc5 else []
         if todo:
             for idx, v, t, raw in pool.imap_unordered(_cvc5_job, todo):
                 r = results[idx]
